@@ -4,7 +4,7 @@
   canonical dump (roots by label, then new roots; each root in raw document order), computed
   the same way by the harness from the real `Xot`.
 -/
-import XotModel.Model.Manip2
+import XotModel.Model.ForestInv
 import XotModel.Driver.TreeCodec
 
 namespace XotModel.Driver
@@ -112,6 +112,7 @@ def handleForest (s : FState) (ws : List String) : Option (FState × String) :=
       finNew f h
   | ["dump"] => some (s, s.dump)
   | ["removed"] => some (s, s.removedLabels)
+  | ["inv"] => some (s, if s.forest.inv then "1" else "0")
   | ["append", a, b] => do let (f, r) := s.forest.append (← node a) (← node b); fin f r
   | ["prepend", a, b] => do let (f, r) := s.forest.prepend (← node a) (← node b); fin f r
   | ["insert_after", a, b] => do let (f, r) := s.forest.insertAfter (← node a) (← node b); fin f r
